@@ -51,7 +51,8 @@ func IntToString(i int) string {
 }
 
 type transpiler struct {
-	converter Converter
+	converter          Converter
+	multiAssignCounter int // Numbers the temporaries of multi-assignments to keep them unique within a program.
 }
 
 func New() transpiler {
@@ -66,6 +67,7 @@ func (t *transpiler) Transpile(path string, converter Converter) (string, error)
 		return "", err
 	}
 	t.converter = converter
+	t.multiAssignCounter = 0
 	err = t.evaluate(ast)
 
 	if err != nil {
@@ -427,7 +429,10 @@ func (t *transpiler) evaluateVarAssignment(assignment parser.VariableAssignment)
 		value := result.firstValue()
 
 		if len(variables) > 1 {
-			temp := fmt.Sprintf("_ma%d", i)
+			// Every temporary gets its own name, otherwise a function called on the right-hand
+			// side which performs a multi-assignment itself would overwrite it.
+			temp := fmt.Sprintf("_ma%d", t.multiAssignCounter)
+			t.multiAssignCounter++
 			err = t.converter.VarAssignment(temp, value, true)
 
 			if err != nil {
